@@ -1,6 +1,6 @@
 (* Props/C16.v — property theorem only.  get_base_direction / get_base_direction_full return the
    P2/P3 direction of the first paragraph / of the first paragraph that has one. *)
-From BidiVerif Require Import Base ConstsGen TablesGen ModelText ModelResolve ModelLine Spec Obs Judge Stmts.
+From BidiVerif Require Import Base ConstsGen TablesGen ModelText RefDs ModelResolve ModelLine Spec Obs Judge Stmts.
 From BidiVerif.Proofs Require Import BaseDir.
 
 Theorem C16_base_direction : C16_statement.
@@ -11,11 +11,11 @@ Proof. exact C16_proof. Qed.
    paragraph 2: a matched isolate hiding an L, a stray PDI, then R -> Rtl (counter reset at the B) *)
 Example C16_unmatched_isolate_stray_pdi_two_paragraphs :
   let text := [0x2069; 0x20; 0x2066; 0x5D0; 0x0A; 0x2067; 0x61; 0x2069; 0x2069; 0x5D1; 0x61]%N in
-  let paras := split_paragraphs (fun k : bclass => k) (map (ds_class hardcoded_ds) (t_chars U16 text)) in
+  let paras := split_paragraphs (fun k : bclass => k) (map (ds_class ucd16_ds) (t_chars U16 text)) in
   paras = [[PDI; WS; LRI; R; B]; [RLI; L; PDI; PDI; R; L]] /\
   map spec_direction paras = [Mixed; Rtl] /\
-  get_base_direction U16 hardcoded_ds false text = Mixed /\
-  get_base_direction U16 hardcoded_ds true text = Rtl.
+  get_base_direction U16 ucd16_ds false text = Mixed /\
+  get_base_direction U16 ucd16_ds true text = Rtl.
 Proof. vm_compute. repeat split. Qed.
 
 Check C16_base_direction : C16_statement.
